@@ -1,5 +1,6 @@
-From Gv Require Import lib.Bytes lib.Json lib.ExtractAnchor C02.Model C02.Spec C07.Model C07.Spec.
+From Gv Require Import lib.Bytes lib.Json lib.ExtractAnchor C02.Model C02.Spec C07.Model C07.Spec C07.ModelTaint C07.SpecTaint.
 Require Import ExtrOcamlBasic.
 Extraction Language OCaml.
 Extraction "model.ml" extraction_anchor load finish faulty_exchange affected requests_subset_b agree_b
-  affected_null_b expected_data errors_nonempty_b json_eqb marshal root_wf fplan_wf consistent sub_b loud.
+  affected_null_b expected_data errors_nonempty_b json_eqb marshal root_wf fplan_wf consistent sub_b loud
+  load_t partial_exchange taint_isolated_b expected_taint fetches_of tainted_indices is_tainted.
